@@ -81,6 +81,12 @@ CLAIMS = {
          "with macros (size x product of ranges) is not proved (partial). Tied to objects.rs/magic.rs by programs whose leaves and calls are wrapped "
          "by id-carrying logging host functions (order and multiplicity visible), every call shape (0-4 arguments, global/receiver, built-in/host, "
          "Arguments), and nested chains to depth 14/22 whose log length was 2^depth before the fix."),
+ "C19": ("Theorem (induction over expressions, for every context): if evaluation fails with 'undeclared reference n' then n is among the "
+         "variables or functions reported by the transcription of Program::references, unless n is a macro-internal '@' name; built-ins and host "
+         "functions never fabricate that error; '@' names are never reported; the report has no context argument. The converse clause (no such "
+         "failure when everything reported is defined) is not proved (partial) but evaluated on the implementation. Tied to references.rs and "
+         "objects.rs by generated programs with random names in every syntactic position: reference sets and execution outcomes against random "
+         "contexts are compared with the model, and all clauses of the property are evaluated on the implementation's own answers."),
  "C06": ("Theorems that Eval.eval (a structural Fixpoint transcribing Value::resolve) returns the left operand's outcome "
          "and host-call log alone when && / || are decided by it, evaluates exactly one branch of ?:, and propagates a "
          "left error - for every context and operand expression, hence at every depth and inside macro bodies. Tied to the "
